@@ -1,7 +1,7 @@
 """C13 message phase: (a) a real RawSocket end against a scripted peer (limits in both directions, corruption),
 (b) real client/server pairs of both transports (order and integrity under segmentation, corruption, told-once).
 
-scenario (half):  {type:"half", role:"S"|"C", ser:int, peer_exp:0..15, own_exp:9..24|None, ops:[...], seed}
+scenario (half):  {type:"half", role:"S"|"C", ser:int, peer_exp:0..15, own_exp:9..24|None, own_size:int (optional), ops:[...], seed}
    ops: ["send", n] | ["recv", n, cuts] | ["inject", kind] | ["lose"]
 scenario (pair):  {type:"pair", kind:"rs"|"ws", ser:name, ops:[...], seed}
    ops: ["send", end, n] | ["flush", cuts_seed] | ["inject", end, kind] | ["lose", end]
@@ -62,9 +62,12 @@ def run_half(sc):
     log = []
     own_exp = sc.get("own_exp")
     maxsize = (2 ** own_exp) if (own_exp and fw.NAME == "tx") else None
+    if sc.get("own_size") and fw.NAME == "tx":          # a configured maximum that is not a power of two
+        maxsize = sc["own_size"]
     p, t = D.rs_proto(role, sessions, sup=(serid,), req=serid, maxsize=maxsize)
     ser = D.SER_BY_RSID[serid]()
     my_exp = own_exp if (own_exp and fw.NAME == "tx") else 24
+    own_size = maxsize if maxsize is not None else 2 ** 24
     pe = sc["peer_exp"]
     if role == "S":
         esc = D.feed_reactor(p, t, bytes([0x7F, (pe << 4) | serid, 0, 0]))
@@ -72,7 +75,7 @@ def run_half(sc):
         esc = D.feed_reactor(p, t, bytes([0x7F, (pe << 4) | serid, 0, 0]))
     hs = bytes(t.written)
     announced = hs[1] >> 4 if len(hs) >= 2 else -1
-    log.append(dict(ev="link_open", kind="rs", role=role, maxSend=2 ** (9 + pe), maxRecv=2 ** my_exp,
+    log.append(dict(ev="link_open", kind="rs", role=role, maxSend=2 ** (9 + pe), ownSize=own_size,
                     obs=dict(esc=esc, attached=sum(s.opens for s in sessions), announcedExp=9 + announced, maxSend=D.max_send_of(p))))
     if not sessions:
         log.append(dict(ev="link_end", obs=dict(opens=0, closes=0, esc="no session")))
@@ -142,7 +145,7 @@ def run_half(sc):
             escs = []
             for ch in cut(data, [rng.random() for _ in range(rng.randrange(0, 3))]):
                 escs.append(D.feed_reactor(p, t, ch))
-            log.append(dict(ev="link_inject", kind=kind, arg=(op[2] if len(op) > 2 else 0), maxRecv=2 ** my_exp,
+            log.append(dict(ev="link_inject", kind=kind, arg=(op[2] if len(op) > 2 else 0),
                             obs=dict(delivered=len(s.msgs) - before, dropped=D.dropped(t), aborted=bool(t.abort_calls), esc=";".join(x for x in escs if x)[:80],
                                      closes=len(s.closes))))
         elif op[0] == "lose":
